@@ -469,6 +469,14 @@ func (fr *oFrame) stmt(s ast.Stmt) oCtl {
 		}
 		// a repository function called for its effects that could not be interpreted: its effects
 		// are unknown (calls that leave the repository — logging and the like — are not followed)
+		if tv, ok := fr.info.Types[ce]; ok && tv.IsVoid() {
+			// a call that returns nothing yet evaluates to ⊤ was not carried out
+			for _, v := range vs {
+				if t, isTop := v.(oTop); isTop && !effectFree(t.why) {
+					return fr.abort("%s", t.why)
+				}
+			}
+		}
 		for _, v := range vs {
 			if t, isTop := v.(oTop); isTop && !poisons(t.why) && strings.Contains(t.why, "(outside the repo)") && !effectFree(t.why) {
 				// a call outside the repository made for its effects (sort.Slice, copy-like helpers,
@@ -645,7 +653,7 @@ func (fr *oFrame) stmt(s ast.Stmt) oCtl {
 			tag = fr.eval(s.Tag)
 		}
 		if isTop(tag) {
-			return fr.abort("switch on ⊤")
+			return fr.abort("switch on %s", showVal(tag))
 		}
 		var deflt *ast.CaseClause
 		for _, c := range s.Body.List {
@@ -757,7 +765,8 @@ func (fr *oFrame) assign(s *ast.AssignStmt) oCtl {
 		if len(s.Lhs) == 1 && len(s.Rhs) == 1 {
 			if li, ok := fr.eval(s.Lhs[0]).(oInt); ok {
 				if ri, ok := fr.eval(s.Rhs[0]).(oInt); ok {
-					op := map[token.Token]token.Token{token.ADD_ASSIGN: token.ADD, token.SUB_ASSIGN: token.SUB, token.MUL_ASSIGN: token.MUL, token.QUO_ASSIGN: token.QUO, token.REM_ASSIGN: token.REM}[s.Tok]
+					op := map[token.Token]token.Token{token.ADD_ASSIGN: token.ADD, token.SUB_ASSIGN: token.SUB, token.MUL_ASSIGN: token.MUL, token.QUO_ASSIGN: token.QUO, token.REM_ASSIGN: token.REM,
+						token.AND_ASSIGN: token.AND, token.OR_ASSIGN: token.OR, token.XOR_ASSIGN: token.XOR, token.AND_NOT_ASSIGN: token.AND_NOT, token.SHL_ASSIGN: token.SHL, token.SHR_ASSIGN: token.SHR}[s.Tok]
 					if v, ok := intBinop(op, li, ri); ok {
 						return fr.store(s.Lhs[0], wrapInt(v, fr.info.TypeOf(s.Lhs[0])), false)
 					}
@@ -1413,6 +1422,9 @@ func (fr *oFrame) eval(e ast.Expr) oval {
 			lv := fr.eval(x.X)
 			if li, ok := lv.(oInt); ok {
 				if ri, ok := fr.eval(x.Y).(oInt); ok {
+					if x.Op == token.SHR && ri >= 0 && ri < 64 && isUnsigned64(fr.info.TypeOf(x)) {
+						return oInt(int64(uint64(li) >> uint(ri)))
+					}
 					if v, ok := intBinop(x.Op, li, ri); ok {
 						return wrapInt(v, fr.info.TypeOf(x))
 					}
@@ -1876,7 +1888,7 @@ func (fr *oFrame) call(call *ast.CallExpr) []oval {
 	if sig.Recv() != nil {
 		sel, ok := unparen(call.Fun).(*ast.SelectorExpr)
 		if !ok {
-			return one(oTop{"method value"})
+			return one(abortedTop("method value"))
 		}
 		_, ptrRecv := sig.Recv().Type().(*types.Pointer)
 		xv := fr.eval(sel.X)
@@ -1904,7 +1916,7 @@ func (fr *oFrame) call(call *ast.CallExpr) []oval {
 						return out
 					}
 				}
-				return one(oTop{"call of " + f.Name() + " on opaque " + iv.opaque.name})
+				return one(abortedTop("call of " + f.Name() + " on opaque " + iv.opaque.name))
 			}
 			if p, ok := iv.dyn.(oPtr); ok && p.s != nil {
 				// dispatch to the concrete method on *T
@@ -1922,7 +1934,7 @@ func (fr *oFrame) call(call *ast.CallExpr) []oval {
 				obj, _, _ := types.LookupFieldOrMethod(types.NewPointer(r.typ), true, f.Pkg(), f.Name())
 				cf, ok := obj.(*types.Func)
 				if !ok {
-					return one(oTop{"no method " + f.Name() + " on *" + r.typ.String()})
+					return one(abortedTop("no method " + f.Name() + " on *" + r.typ.String()))
 				}
 				f = cf
 				sig = f.Type().(*types.Signature)
@@ -1933,17 +1945,19 @@ func (fr *oFrame) call(call *ast.CallExpr) []oval {
 				obj, _, _ := types.LookupFieldOrMethod(dt, true, f.Pkg(), f.Name())
 				cf, ok := obj.(*types.Func)
 				if !ok {
-					return one(oTop{"no method " + f.Name() + " on " + dt.String()})
+					return one(abortedTop("no method " + f.Name() + " on " + dt.String()))
 				}
 				f = cf
 				sig = f.Type().(*types.Signature)
 				_, ptrRecv = sig.Recv().Type().(*types.Pointer)
 				xv = iv.dyn
 				if ptrRecv {
-					return one(oTop{"pointer-receiver method on a value in an interface"})
+					return one(abortedTop("pointer-receiver method on a value in an interface"))
 				}
+			} else if _, isExt := iv.dyn.(oExt); isExt {
+				// a value of the standard library (binary.BigEndian …): the call goes to the stub
 			} else {
-				return one(oTop{"method on nil interface"})
+				return one(abortedTop("method on nil interface"))
 			}
 		}
 		if hostRecv {
@@ -1966,15 +1980,15 @@ func (fr *oFrame) call(call *ast.CallExpr) []oval {
 					recv = oRef{cell: cell, typ: fr.info.TypeOf(sel.X)}
 				}
 			} else {
-				return one(oTop{"receiver not addressable"})
+				return one(abortedTop("receiver not addressable"))
 			}
 			if p, isPtr := recv.(oPtr); isPtr && p.s == nil {
-				return one(oTop{"nil receiver"})
+				return one(abortedTop("nil receiver"))
 			}
 		} else {
 			if p, ok := xv.(oPtr); ok {
 				if p.s == nil {
-					return one(oTop{"nil deref"})
+					return one(abortedTop("nil deref"))
 				}
 				recv = p.s.clone()
 			} else {
@@ -2695,6 +2709,14 @@ func embeddedRecv(recv oval, want types.Type) oval {
 
 // wrapInt reduces an integer result to the width and signedness of its static type (Go's
 // arithmetic on sized integers wraps around silently).
+func isUnsigned64(t types.Type) bool {
+	if t == nil {
+		return false
+	}
+	b, ok := t.Underlying().(*types.Basic)
+	return ok && (b.Kind() == types.Uint64 || b.Kind() == types.Uint || b.Kind() == types.Uintptr)
+}
+
 func wrapInt(v oval, t types.Type) oval {
 	i, ok := v.(oInt)
 	if !ok || t == nil {
@@ -2727,6 +2749,12 @@ func wrapInt(v oval, t types.Type) oval {
 // stable, which both promise or allow); sort.Sort and sort.Stable go through the value's own
 // Len/Less/Swap.
 func (it *oInterp) coreLib(f *types.Func, recv oval, args []oval) ([]oval, bool) {
+	if out, ok := it.sinkLib(f, recv, args); ok {
+		return out, true
+	}
+	if out, ok := it.hexLib(f, args, oIface{opaque: &oOpaque{name: "error", isError: true}}); ok {
+		return out, true
+	}
 	if f.Pkg() == nil || f.Pkg().Path() != "sort" {
 		return nil, false
 	}
